@@ -837,6 +837,42 @@ def name_sequence(rnd, kind, n):
             out.append(b)
             gen = "".join(c + "_" if c != c.lower() else c for c in b)
             out.append(rnd.choice([gen, gen.lower(), gen + "000000000000001", "_" + b, gen.upper()]))
+    elif kind == "clip-reserved":
+        # names of every length around the 255-character limit with a reserved device word (or a longer word that
+        # starts with one: "console", "com10") as a dot-part at every position around the clip boundary.  The
+        # boundary depends on prefix/suffix: 255, 250 (".glif"), 248 ("glyphs."), 238.  Also two reserved-ish parts,
+        # which interact through the "_" shift (regression witness: probe names-reserved-after-shift).
+        words = ["con", "aux", "nul", "prn", "com1", "com9", "lpt1", "lpt9", "clock$"]
+        conts = ["", "", "1", "0", "sole", "x", "tours", "iliary", "ly", "_"]
+        for _ in range(n):
+            b = rnd.choice([255, 250, 250, 248, 238])
+            r = rnd.choice(words)
+            if rnd.random() < 0.3:
+                r = rnd.choice([r.upper(), r.capitalize()])
+            shape = rnd.random()
+            if shape < 0.2:
+                # a reserved part as typed in front (gets "_", shifting everything by one) AND a word around the boundary
+                r1 = rnd.choice(words)
+                d = rnd.randrange(-4, 5)
+                pos = max(1, b + d - 2 - len(r) - len(r1) - 1)
+                name = r1 + "." + "x" * pos + "." + r + rnd.choice(conts)
+            elif shape < 0.6:
+                # ... '.' + word ends d characters before/after the boundary
+                d = rnd.randrange(-5, 6)
+                upper = sum(1 for c in r if c != c.lower())      # capitals get a '_' appended each
+                pos = max(1, b + d - 1 - len(r) - upper)
+                name = "x" * pos + "." + r + rnd.choice(conts)
+                if rnd.random() < 0.3:
+                    name += "." + rnd.choice(["z", "alt", "x" * 20])
+            elif shape < 0.8:
+                # the word is the first part, total length sweeps 245..262
+                L = rnd.randrange(245, 263)
+                name = r + rnd.choice(conts) + "." + "y" * max(1, L - len(r) - 1)
+            else:
+                # plain length sweep without any reserved word
+                L = rnd.randrange(236, 263)
+                name = "".join(rnd.choice("ab.") for _ in range(L)).strip(".") or "a"
+            out.append(name)
     elif kind == "unicode":
         pool = UNI_WORDS + ["é", "é", "É", "é", "Ж", "ж", "𝔄", "𝔞", "Ա", "ա", "Ⴀ", "ⴀ", "Ꭰ", "ꭰ", "𐐀", "𐐨", "Ⓐ", "ⓐ"]
         out = [rnd.choice(pool) + rnd.choice(["", ".sc", "1"]) for _ in range(n)]
@@ -853,4 +889,4 @@ def name_sequence(rnd, kind, n):
 
 
 NAME_KINDS = ["case", "reserved", "odd", "long-prefix", "truncation-case", "generated-echo",
-              "unicode", "counter", "mixed"]
+              "unicode", "counter", "mixed", "clip-reserved"]
